@@ -55,6 +55,9 @@ func step(line string) (res string) {
 	if strings.HasPrefix(op, "e_") {
 		return encodeOp(op, arg)
 	}
+	if strings.HasPrefix(op, "rt_") {
+		return rtOp(op, arg)
+	}
 	b, ok := hx.Unhex(arg)
 	if !ok {
 		return "bad-op"
@@ -226,6 +229,8 @@ func decodeOp(op string, b []byte) string {
 		return "ok " + strconv.Itoa(n)
 	case "walk":
 		return walk(b, b)
+	case "c13":
+		return c13Op(b)
 	}
 	return "bad-op"
 }
